@@ -506,7 +506,7 @@ def run(prop, tier, rep):
                     rep.violation("%s/%s/generated-file search after the unit could not be verified" % (prop, u["name"]),
                                   dict(detail="; ".join(sorted({r["error"] for r in rs if r["error"]}))[:300], replay=w,
                                        note="the proof could not be attempted; this input shows the property violated on the real code"), True)
-    if prop == "C17" and not os.environ.get("VERIF_ONLY_UNITS"):
+    if prop in ("C17", "C18") and not os.environ.get("VERIF_ONLY_UNITS"):
         # the record walk of veftopng.start (squashed files) is under contract only through unsquash: bounded stand-in on whole files
         try:
             from vcheck import differential
